@@ -108,18 +108,18 @@ def signatures(max_params: int) -> list[tuple[str, ...]]:
 # --------------------------------------------------------------------------- call shapes
 
 
-def alphabet(names: str) -> list[tuple]:
+def alphabet(names: str, max_keys: int) -> list[tuple]:
     keys = list(names) + [FOREIGN]
     al: list[tuple] = [("p",)]
     al += [("k", n) for n in keys]
     al += [("t", n) for n in (0, 1, 2)]
-    for r in range(len(keys) + 1):
+    for r in range(min(max_keys, len(keys)) + 1):
         for c in itertools.combinations(keys, r):
             al.append(("d", "".join(c)))
     return al
 
 
-def render_call(shape: tuple) -> str:
+def render_call(shape: tuple | list) -> str:
     out = []
     for a in shape:
         if a[0] == "p":
@@ -133,14 +133,14 @@ def render_call(shape: tuple) -> str:
     return "f(" + ", ".join(out) + ")"
 
 
-_SHAPES: dict[tuple[str, int], list[tuple]] = {}
+_SHAPES: dict[tuple[str, int, int], list[tuple]] = {}
 
 
-def shapes(names: str, max_actuals: int) -> list[tuple]:
+def shapes(names: str, max_actuals: int, max_keys: int) -> list[tuple]:
     """All syntactically legal call shapes (legality = CPython's compiler), shortest first."""
-    key = (names, max_actuals)
+    key = (names, max_actuals, min(max_keys, len(names) + 1))
     if key not in _SHAPES:
-        al = alphabet(names)
+        al = alphabet(names, max_keys)
         out = []
         for n in range(max_actuals + 1):
             for sh in itertools.product(al, repeat=n):
@@ -186,12 +186,56 @@ def module_text(sig_src: str, names: str, calls: list[str]) -> tuple[str, int]:
 _MSG = re.compile(r"^[^:]+:(\d+): (error|note|warning): (.*)$")
 
 
-def _build_once(text: str, cache: str | None, work: str, modname: str) -> tuple[list[str], dict | None]:
-    """One real `mypy.build.build` (bundled typeshed) on the generated module.
+class _LineCrash(BaseException):
+    """Raised by the record-and-continue shim in place of report_internal_error's SystemExit."""
 
-    Returns (message lines, crash) where crash = None or {"line", "exception", "where"} for an
-    INTERNAL ERROR; in that case the messages are the ones mypy dumps for the statements it had
-    already checked (report_internal_error prints them to the process stdout)."""
+    def __init__(self, err: BaseException) -> None:
+        super().__init__(repr(err))
+        self.err = err
+
+
+def _where(err: BaseException) -> str:
+    import traceback
+
+    frames = [f for f in traceback.extract_tb(err.__traceback__) if f.filename.startswith("/repo/")]
+    if not frames:
+        return "?"
+    f = frames[-1]
+    return f"{f.filename[len('/repo/'):]}:{f.name}"
+
+
+def _install_record_and_continue(crashes: dict[int, dict]) -> None:
+    """Harness-side shim (this forked process only): an exception escaping the checking of ONE
+    top-level expression statement is recorded for that line and checking continues, instead of
+    aborting the whole build with INTERNAL ERROR.  It is inert when nothing crashes.  Verdicts of
+    modules in which it fired are NOT trusted: they are re-derived by an unshimmed build without
+    the crashing lines (see mypy_verdicts)."""
+    import mypy.checker as ck
+    import mypy.checkexpr as ce
+
+    def fake_report(err: Exception, *a: Any, **k: Any) -> Any:
+        raise _LineCrash(err)
+
+    ce.report_internal_error = fake_report  # type: ignore[assignment]
+    ck.report_internal_error = fake_report  # type: ignore[assignment]
+    orig = ck.TypeChecker.visit_expression_stmt
+
+    def visit_expression_stmt(self: Any, s: Any) -> Any:
+        depth = len(self.expr_checker.type_context)
+        try:
+            return orig(self, s)
+        except _LineCrash as e:
+            del self.expr_checker.type_context[depth:]
+            crashes[s.line] = {"crash": f"{type(e.err).__name__}: {e.err}", "where": _where(e.err)}
+            return None
+
+    ck.TypeChecker.visit_expression_stmt = visit_expression_stmt  # type: ignore[method-assign]
+
+
+def _build_once(job: dict) -> dict:
+    """One real `mypy.build.build` (bundled typeshed) on a generated module, in THIS process
+    (callers fork first).  job: {text, cache, work, modname, shim}.
+    Returns {"messages": [...], "crash": None | {...}, "line_crashes": {line: {...}}}."""
     import contextlib
     import io
 
@@ -201,15 +245,19 @@ def _build_once(text: str, cache: str | None, work: str, modname: str) -> tuple[
 
     from mc.drivers import make_options
 
+    work, modname = job["work"], job["modname"]
     os.makedirs(os.path.join(work, "tmp"), exist_ok=True)
     os.chdir(work)
-    o = make_options(cache_dir=cache, fixtures=False)
+    o = make_options(cache_dir=job["cache"], fixtures=False)
+    line_crashes: dict[int, dict] = {}
+    if job.get("shim"):
+        _install_record_and_continue(line_crashes)
     real_out, real_err, p_out, p_err = io.StringIO(), io.StringIO(), io.StringIO(), io.StringIO()
     crash = None
     msgs: list[str] = []
     with contextlib.redirect_stdout(real_out), contextlib.redirect_stderr(real_err):
         try:
-            res = mb.build([BuildSource(f"{modname}.py", modname, text)], o, stdout=p_out, stderr=p_err)
+            res = mb.build([BuildSource(f"{modname}.py", modname, job["text"])], o, stdout=p_out, stderr=p_err)
             msgs = list(res.errors)
         except CompileError as e:
             msgs = list(e.messages)
@@ -225,9 +273,9 @@ def _build_once(text: str, cache: str | None, work: str, modname: str) -> tuple[
                 fm = re.search(r'File "/repo/([^"]+)", line \d+, in (\w+)', frames[-1])
                 if fm:
                     where = f"{fm.group(1)}:{fm.group(2)}"
-            crash = {"line": int(m.group(1)), "exception": tb[-1].strip(), "where": where}
+            crash = {"line": int(m.group(1)), "crash": tb[-1].strip(), "where": where}
             msgs = [ln for ln in real_out.getvalue().splitlines() if _MSG.match(ln)]
-    return msgs, crash
+    return {"messages": msgs, "crash": crash, "line_crashes": line_crashes}
 
 
 def _by_line(msgs: list[str]) -> dict[int, list[str]]:
@@ -241,49 +289,93 @@ def _by_line(msgs: list[str]) -> dict[int, list[str]]:
 
 
 SUBCHUNK_AFTER_CRASH = 300
+BUILD_TIMEOUT = 1500.0
+
+
+def _isolated_build(text: str, cache: str | None, work: str, modname: str, shim: bool) -> dict:
+    from mc.kernel import run_isolated
+
+    return run_isolated(_build_once, {"text": text, "cache": cache, "work": work, "modname": modname, "shim": shim},
+                        timeout=BUILD_TIMEOUT)
 
 
 def mypy_verdicts(sig_src: str, names: str, calls: list[str], cache_src: str | None, work: str,
-                  modname: str = "c12calls") -> tuple[list[Any], int]:
-    """Per call line: list of messages ([] = accepted) or {"crash": ...}.  Also the number of builds.
+                  modname: str = "c12calls") -> tuple[list[Any], dict]:
+    """Per call line: list of messages ([] = accepted) or {"crash": ..., "where": ...}.
 
-    An INTERNAL ERROR aborts the whole build, so after a crash at call k the verdicts of the calls
-    before k are taken from the dumped messages, call k is recorded as a crash, and the calls
-    after k are re-run (in smaller modules, so that further crashes stay cheap)."""
+    Every build runs in a freshly forked process.
+      pass 1  all call lines, with the record-and-continue shim.  No crash => these are the verdicts
+              (the shim only wraps; it changed nothing).
+      pass 2  (only if some lines crashed) an UNSHIMMED build of the module without the crashing
+              lines gives the verdicts of all other lines; the crashing lines are recorded as such.
+      fallback (pass 2 itself dies): strictly unshimmed crash-by-crash peeling.
+    """
     cache = None
     if cache_src:
         cache = os.path.join(work, "cache")
         if not os.path.isdir(cache):
             shutil.copytree(cache_src, cache)
+    info = {"builds": 0, "shim_divergences": 0, "fallback": 0}
     out: list[Any] = [None] * len(calls)
-    pending = list(range(len(calls)))
-    builds = 0
-    crashed_once = False
-    while pending:
-        batch = pending[:SUBCHUNK_AFTER_CRASH] if crashed_once else pending
-        text, first = module_text(sig_src, names, [calls[i] for i in batch])
-        msgs, crash = _build_once(text, cache, work, modname)
-        builds += 1
-        by = _by_line(msgs)
+
+    def check_stray(by: dict[int, list[str]], first: int) -> None:
         stray = {ln: ms for ln, ms in by.items() if ln < first}
         if stray:
             raise RuntimeError(f"diagnostics outside call lines (harness bug): {stray}")
-        if crash is None:
+
+    text, first = module_text(sig_src, names, calls)
+    r1 = _isolated_build(text, cache, work, modname, shim=True)
+    info["builds"] += 1
+    if r1["crash"] is not None:
+        raise RuntimeError(f"INTERNAL ERROR not caught by the shim: {r1['crash']}")
+    by1 = _by_line(r1["messages"])
+    check_stray(by1, first)
+    lc = {ln - first: v for ln, v in r1["line_crashes"].items()}
+    if any(not 0 <= k < len(calls) for k in lc):
+        raise RuntimeError(f"crash outside call lines: {r1['line_crashes']}")
+    if not lc:
+        return [by1.get(first + i, []) for i in range(len(calls))], info
+    keep = [i for i in range(len(calls)) if i not in lc]
+    for k, v in lc.items():
+        out[k] = v
+    text2, first2 = module_text(sig_src, names, [calls[i] for i in keep])
+    r2 = _isolated_build(text2, cache, work, modname, shim=False)
+    info["builds"] += 1
+    if r2["crash"] is None:
+        by2 = _by_line(r2["messages"])
+        check_stray(by2, first2)
+        for j, i in enumerate(keep):
+            out[i] = by2.get(first2 + j, [])
+            if out[i] != by1.get(first + i, []):
+                info["shim_divergences"] += 1
+        return out, info
+    # fallback: unshimmed peeling over the kept lines
+    info["fallback"] = 1
+    pending = keep
+    crashed_once = False
+    while pending:
+        batch = pending[:SUBCHUNK_AFTER_CRASH] if crashed_once else pending
+        text3, first3 = module_text(sig_src, names, [calls[i] for i in batch])
+        r3 = _isolated_build(text3, cache, work, modname, shim=False)
+        info["builds"] += 1
+        by3 = _by_line(r3["messages"])
+        check_stray(by3, first3)
+        if r3["crash"] is None:
             for j, i in enumerate(batch):
-                out[i] = by.get(first + j, [])
+                out[i] = by3.get(first3 + j, [])
             pending = pending[len(batch):]
             continue
-        k = crash["line"] - first
+        k = r3["crash"]["line"] - first3
         if not 0 <= k < len(batch):
-            raise RuntimeError(f"INTERNAL ERROR outside call lines: {crash}")
-        if any(ln > crash["line"] for ln in by):
+            raise RuntimeError(f"INTERNAL ERROR outside call lines: {r3['crash']}")
+        if any(ln > r3["crash"]["line"] for ln in by3):
             raise RuntimeError("messages after the crash line: statement order assumption broken")
         for j in range(k):
-            out[batch[j]] = by.get(first + j, [])
-        out[batch[k]] = {"crash": crash["exception"], "where": crash["where"]}
+            out[batch[j]] = by3.get(first3 + j, [])
+        out[batch[k]] = {"crash": r3["crash"]["crash"], "where": r3["crash"]["where"]}
         pending = pending[k + 1:]
         crashed_once = True
-    return out, builds
+    return out, info
 
 
 def runtime_results(sig_src: str, names: str, calls: list[str]) -> list[str | None]:
@@ -337,21 +429,20 @@ def classify(direction: str, seq: tuple[str, ...], names: str, shape: list, rt_e
         assert rt_err is not None
         m = re.search(r"got multiple values for (keyword )?argument '([a-z]+)'", rt_err)
         if m:
+            # the same formal (or the same **kw key) is supplied twice: by which kinds of actual?
             who = m.group(2)
-            kw_src = sorted({"keyword" if a[0] == "k" else "typeddict-kw" for a in shape
-                             if (a[0] == "k" and a[1] == who) or (a[0] == "d" and who in a[1])})
             named = [k for k in seq if k not in ("va", "vk")]
-            pos_src = "none"
-            if who in names:
-                idx = names.index(who)
-                if named[idx] in ("po", "pod", "pk", "pkd"):
-                    ps = positional_sources(shape)
-                    # index among positional-capable formals == index among named params (they come first)
-                    if idx < len(ps):
-                        pos_src = ps[idx]
-            if pos_src == "none" and len(kw_src) >= 1:
-                return "calls:false-accept:keyword-duplicate:" + "+".join(kw_src)
-            return f"calls:false-accept:{pos_src}+{'+'.join(kw_src)}-duplicate"
+            kind = named[names.index(who)] if who in names else None
+            src: list[str] = []
+            if kind in ("pk", "pkd"):
+                ps = positional_sources(shape)
+                idx = names.index(who)  # positional-capable formals come first, so this is the position
+                if idx < len(ps):
+                    src.append(ps[idx])
+            src += sorted({"keyword" if a[0] == "k" else "typeddict-kw" for a in shape
+                           if (a[0] == "k" and a[1] == who) or (a[0] == "d" and who in a[1])})
+            into_kw = kind not in ("pk", "pkd", "ko", "kod")
+            return f"calls:false-accept:{'+'.join(src)}-duplicate" + ("-into-**kw" if into_kw else "")
         return f"calls:false-accept:{_norm_rt(rt_err)}:{'+'.join(kinds)}"
     return f"calls:false-reject:{_norm_mypy(mypy_msgs)}:{'+'.join(kinds)}"
 
@@ -360,24 +451,25 @@ def classify(direction: str, seq: tuple[str, ...], names: str, shape: list, rt_e
 
 
 def run_item(item: dict) -> dict:
-    """One batch: one signature x a slice of its call shapes, in one generated module."""
+    """One batch: one signature x a slice of its call shapes, in one generated module.
+    Runs in a long-lived pool worker; every mypy build is forked off it (see mypy_verdicts)."""
     from mc.common import scratch
 
     seq = tuple(item["sig"])
     sig_src, names = render_sig(seq)
-    shs = shapes(names, item["max_actuals"])[item["start"]:item["stop"]]
+    shs = shapes(names, item["max_actuals"], item["max_keys"])[item["start"]:item["stop"]]
     calls = [render_call(s) for s in shs]
-    work = scratch("c12", f"calls-{os.getpid()}")
+    work = scratch("c12", f"calls-{os.getpid()}-{item['start']}-{'_'.join(seq)}")
     try:
-        verdicts, builds = mypy_verdicts(sig_src, names, calls, item.get("cache"), work)
+        verdicts, info = mypy_verdicts(sig_src, names, calls, item.get("cache"), work)
     finally:
         shutil.rmtree(work, ignore_errors=True)
     rt = runtime_results(sig_src, names, calls)
-    st: Counter[str] = Counter()
-    st["builds"] = builds
+    st: Counter[str] = Counter(info)
     mypy_kinds: Counter[str] = Counter()
     rt_kinds: Counter[str] = Counter()
     viol: list[dict] = []
+    sample = None
     for sh, c, msgs, err in zip(shs, calls, verdicts, rt):
         st["calls"] += 1
         if len(sh) and len(seq):
@@ -403,6 +495,9 @@ def run_item(item: dict) -> dict:
         else:
             st["mypy_accept"] += 1
         if (err is None) == (not msgs):
+            st["agree_accept" if err is None else "agree_reject"] += 1
+            if sample is None and len(sh) == 3 and err is not None:
+                sample = {"def": f"def f({sig_src})", "call": c, "cpython": err, "mypy": msgs}
             continue
         direction = "false-accept" if err is not None else "false-reject"
         st[direction] += 1
@@ -411,43 +506,74 @@ def run_item(item: dict) -> dict:
             "what": f"def f({sig_src}); {c}: {rt_txt}, mypy {'reports ' + str(msgs) if msgs else 'is silent'}",
             "detail": {**detail, "mypy_messages": msgs},
         })
-    return {"stats": dict(st), "mypy_kinds": dict(mypy_kinds), "rt_kinds": dict(rt_kinds), "violations": viol}
+    return {"stats": dict(st), "mypy_kinds": dict(mypy_kinds), "rt_kinds": dict(rt_kinds), "violations": viol,
+            "sample": sample}
 
 
-def items(max_params: int, max_actuals: int, extra_actuals_upto_params: int | None, chunk: int) -> tuple[list[dict], dict]:
-    """Work items (one signature x <= chunk call lines) + measured space description."""
-    sigs = signatures(max_params)
+ALL_KEYS = 99
+
+
+def bounds_for(seq: tuple[str, ...], tier: str) -> tuple[int, int] | None:
+    """(max actuals, max TypedDict keys) for a signature in a tier; None = not in the tier."""
+    n = len(seq)
+    if tier == "quick":
+        return (3, 2) if n <= 3 else None
+    if n <= 2:
+        return (4, ALL_KEYS)
+    if n == 3:
+        return (3, ALL_KEYS)
+    return (3, 2)
+
+
+BOUNDS_TEXT = {
+    "quick": "signatures with <=3 parameters (149) x calls with <=3 actuals, TypedDict key sets of <=2 keys",
+    "thorough": "signatures with <=4 parameters (427); <=2 params: <=4 actuals, all TypedDict key sets; "
+                "3 params: <=3 actuals, all key sets; 4 params: <=3 actuals, key sets of <=2 keys",
+}
+
+
+def items(tier: str, chunk: int) -> tuple[list[dict], dict]:
+    """Work items (one signature x <= chunk call lines) + measured description of the space."""
+    sigs = signatures(3 if tier == "quick" else 4)
     out: list[dict] = []
     per_names: Counter[int] = Counter()
     n_lines = 0
     for seq in sigs:
+        b = bounds_for(seq, tier)
+        if b is None:
+            continue
+        ma, mk = b
         _, names = render_sig(seq)
-        ma = max_actuals
-        if extra_actuals_upto_params is not None and len(seq) <= extra_actuals_upto_params:
-            ma = max_actuals + 1
-        n = len(shapes(names, ma))
+        n = len(shapes(names, ma, mk))
         per_names[len(names)] += 1
         n_lines += n
         for s in range(0, n, chunk):
-            out.append({"kind": "calls", "sig": list(seq), "max_actuals": ma, "start": s, "stop": min(n, s + chunk),
-                        "cost": min(n, s + chunk) - s})
-    space = {"signatures": len(sigs), "max_params": max_params, "max_actuals": max_actuals,
-             "extra_actual_for_signatures_with_params_upto": extra_actuals_upto_params,
-             "signatures_by_named_params": dict(sorted(per_names.items())),
-             "shapes_by_names": {f"{len(k[0])}names/<={k[1]}actuals": len(v) for k, v in sorted(_SHAPES.items())},
+            out.append({"kind": "calls", "sig": list(seq), "max_actuals": ma, "max_keys": mk, "start": s,
+                        "stop": min(n, s + chunk), "cost": (min(n, s + chunk) - s) * (2 if "vk" in seq else 1)})
+    space = {"signatures": len(sigs), "bounds": BOUNDS_TEXT[tier],
+             "signatures_by_named_params": {str(k): v for k, v in sorted(per_names.items())},
+             "legal_call_shapes": {f"{len(k[0])} names, <={k[1]} actuals, <={k[2]} keys": len(v)
+                                   for k, v in sorted(_SHAPES.items())},
              "call_lines": n_lines}
     return out, space
 
 
 def replay_one(d: dict, cache: str | None) -> dict:
-    """Re-decide one (signature, call) pair with both deciders."""
+    """Re-decide one (signature, call) pair with both deciders (unshimmed mypy build first)."""
     from mc.common import scratch
 
     work = scratch("c12", f"calls-replay-{os.getpid()}")
     try:
-        verdicts, _ = mypy_verdicts(d["sig_src"], d["names"], [d["call"]], cache, work)
+        text, first = module_text(d["sig_src"], d["names"], [d["call"]])
+        c = os.path.join(work, "cache")
+        if cache and not os.path.isdir(c):
+            shutil.copytree(cache, c)
+        r = _isolated_build(text, c if cache else None, work, "c12calls", shim=False)
     finally:
         shutil.rmtree(work, ignore_errors=True)
+    by = _by_line(r["messages"])
+    verdict: Any = by.get(first, [])
+    if r["crash"] is not None:
+        verdict = {"crash": r["crash"]["crash"], "where": r["crash"]["where"], "line_is_call": r["crash"]["line"] == first}
     rt = runtime_results(d["sig_src"], d["names"], [d["call"]])[0]
-    text, _first = module_text(d["sig_src"], d["names"], [d["call"]])
-    return {"runtime_error": rt, "mypy": verdicts[0], "text": text}
+    return {"runtime_error": rt, "mypy": verdict, "text": text}
